@@ -1,6 +1,7 @@
 import BumpVerif.Gen.FnVecCopy
 import BumpVerif.Props.GenFnVec
 import BumpVerif.Proofs.VecRefine2
+import BumpVerif.Proofs.VecCore
 /-!
 # `Vec::{append_elements, extend_from_slice_copy_unchecked, extend_from_slice_copy}` as translated = the model
 
@@ -87,7 +88,121 @@ theorem gen_vec_append (c : Cfg) (a b : VS) (w : W) (hc : CfgOK c) (hb : BufOK c
   | none => rfl
   | some a1 => rfl
 
+/-! ## `Extend<T> for Vec`: reserve the lower size hint, then `for t in iter { self.push(t) }` with the iterator owned by the frame -/
+
+/-- how a run of the loop reads in the model's terms: the vector, the effects *after* the iterator is gone, did it end normally -/
+def loopView (c : Cfg) (r : VW × Outcome It) : VS × W × Bool × Bool :=
+  match r with
+  | ((v, w), .ok it) => (v, it.dropRest c w, true, it.remaining == 0)
+  | ((v, w), .panic) => (v, w, false, true)
+  | ((v, w), .bad why) => (v, w.flag why, false, false)
+  | ((v, w), _) => (v, w.flag "?", false, false)
+
+theorem it_next_remaining (c : Cfg) (w : W) (it : It) :
+    match It.next c w it with
+    | (_, it', some (some _)) => it'.remaining + 1 = it.remaining
+    | (_, it', some none) => it'.remaining = 0
+    | (_, _, none) => True := by
+  cases it with
+  | src s =>
+    unfold It.next
+    by_cases h : (s.panicAt == some s.calls) = true
+    · simp [h]
+    · simp only [h]
+      cases hi : s.items with
+      | nil => simp [It.remaining, hi]
+      | cons e r => simp [It.remaining, hi]
+  | cloned l =>
+    cases l with
+    | nil => simp [It.next, It.remaining]
+    | cons e r =>
+      simp only [It.next]
+      rcases cloneElem c w e with ⟨w', o⟩
+      cases o <;> simp [It.remaining]
+  | owned l =>
+    cases l with
+    | nil => simp [It.next, It.remaining]
+    | cons e r => simp [It.next, It.remaining]
+
+/-- the translated loop against the model's `extendLoop`, for every fuel that covers what the iterator can still yield -/
+theorem extend_loop (c : Cfg) (hc : CfgOK c) (it0 : It) (u : Unit) :
+    ∀ (fuel : Nat) (it : It) (v : VS) (xs : List Elem) (w : W), RepB c v xs → it.remaining < fuel →
+    (loopView c (Gen.Fn.vec_extend.loop_1 c it0 u fuel it (v, w))).1 = (extendLoop c fuel v it w).1 ∧
+    (loopView c (Gen.Fn.vec_extend.loop_1 c it0 u fuel it (v, w))).2.1 = ((extendLoop c fuel v it w).2.1.dropRest c (extendLoop c fuel v it w).2.2.1) ∧
+    (loopView c (Gen.Fn.vec_extend.loop_1 c it0 u fuel it (v, w))).2.2.1 = (extendLoop c fuel v it w).2.2.2 ∧
+    (loopView c (Gen.Fn.vec_extend.loop_1 c it0 u fuel it (v, w))).2.2.2 = true := by
+  intro fuel
+  induction fuel with
+  | zero => intro it v xs w _ h; omega
+  | succ fuel ih =>
+    intro it v xs w hr hlt
+    unfold Gen.Fn.vec_extend.loop_1 extendLoop
+    simp only [it_next]
+    have hrem := it_next_remaining c w it
+    rcases hn : It.next c w it with ⟨w1, it1, o⟩
+    rw [hn] at hrem
+    cases o with
+    | none => simp [loopView, it_drop]
+    | some oo =>
+      cases oo with
+      | none =>
+        simp only [] at hrem
+        simp [loopView, hrem]
+      | some e =>
+        simp only [] at hrem
+        have hp := gen_vec_push_raw c v e w1 hr.lenCap hr.capLt
+        rcases push_spec hc hr e w1 with ⟨v', hpush, hr'⟩ | ⟨hpush, _, _⟩
+        · rw [hpush] at hp
+          simp only [Prod.toVW, Option.isSome_some, if_true] at hp
+          simp only [hp, bindU, hpush]
+          exact ih it1 v' _ w1 hr' (by omega)
+        · rw [hpush] at hp
+          simp only [Prod.toVW, Option.isSome_none, Bool.false_eq_true, if_false] at hp
+          simp only [hp, bindU, hpush, loopView, it_drop]
+          simp
+
+theorem dropRestP_exhausted (c : Cfg) (w : W) (it : It) (h : it.remaining = 0) :
+    dropRestP c w it = (it.dropRest c w, false) := by
+  cases it with
+  | src s =>
+    have : s.items = [] := by simpa [It.remaining] using h
+    simp [dropRestP, It.dropRest, this, dropAll]
+  | cloned l => simp [dropRestP, It.dropRest]
+  | owned l =>
+    have : l = [] := by simpa [It.remaining] using h
+    simp [dropRestP, It.dropRest, this, dropAll]
+
+/-- `Extend::extend(iter)` as translated is the model's `extend`: also when `reserve`, `next`, `push` or `Clone` panics half-way -/
+theorem gen_vec_extend (c : Cfg) (hc : CfgOK c) (it : It) (v : VS) (xs : List Elem) (w : W) (hr : RepB c v xs) :
+    toModel (Gen.Fn.vec_extend c it (v, w)) = extend c v it w := by
+  unfold Gen.Fn.vec_extend extend extendRef
+  simp only []
+  rw [gen_vec_reserve]
+  cases hres : rawReserve c v v.len it.hintLo with
+  | none => simp [bindU, toModel, it_drop]
+  | some v1 =>
+    obtain ⟨hr1, _, _⟩ := rawReserve_some hc hr hres
+    simp only [bindU]
+    have hloop := extend_loop c hc it () (it.remaining + 1) it v1 xs w hr1 (by omega)
+    rcases hg : Gen.Fn.vec_extend.loop_1 c it () (it.remaining + 1) it (v1, w) with ⟨⟨a, b⟩, o⟩
+    rw [hg] at hloop
+    obtain ⟨h1, h2, h3, h4⟩ := hloop
+    cases o with
+    | ok it' =>
+      simp only [loopView] at h1 h2 h3 h4
+      have hex : it'.remaining = 0 := by simpa using h4
+      simp only [bindW, it_drop_end, dropRestP_exhausted c b it' hex, toModel]
+      rw [← h1, ← h2, ← h3]; rfl
+    | panic =>
+      simp only [loopView] at h1 h2 h3
+      simp only [bindW, toModel]
+      rw [← h1, ← h2, ← h3]; rfl
+    | bad why => simp [loopView] at h4
+    | err => simp [loopView] at h4
+    | envBad => simp [loopView] at h4
+
 #print axioms gen_vec_extend_from_slice_copy
+#print axioms gen_vec_extend
 #print axioms gen_vec_extend_from_slice_copy_unchecked
 #print axioms gen_vec_append_elements
 #print axioms gen_vec_append
